@@ -120,6 +120,13 @@ pub struct Case {
     /// change every result if the library bound to them); the compiler may refuse such a program
     #[serde(default)]
     pub decoys: bool,
+    /// 0: the library call is made from `main`. d > 0: from a function `work(wa, wb)` reached
+    /// through d-1 intermediate calls with arguments and locals, above padding locals of main, so
+    /// that the table, the counter the callbacks capture and the callback closures themselves
+    /// live in a frame that does not start at the bottom of the value stack (at most 60 rows: every
+    /// nested-table row costs two stack slots of the frame that builds the table)
+    #[serde(default)]
+    pub depth: u8,
 }
 
 fn c(b: CardBody) -> Card {
@@ -435,7 +442,7 @@ fn gen_case(rng: &mut Rng) -> Case {
         None
     };
     // Neg on reals is fine, on strings not comparable: keep Neg for numeric values only
-    Case { fun, entries, as_array, cb, keyfn, non_table, short_params: rng.chance(1, 5) && n <= 6, decoys: rng.chance(1, 12) }
+    Case { fun, entries, as_array, cb, keyfn, non_table, short_params: rng.chance(1, 5) && n <= 6, decoys: rng.chance(1, 12), depth: if rng.chance(1, 3) && n <= 60 { 1 + rng.below(3) as u8 } else { 0 } }
 }
 
 fn build(case: &Case) -> Module {
@@ -481,7 +488,37 @@ fn build(case: &Case) -> Module {
     main.cards.push(Card::set_global_var("g_calls", Card::read_var("counter")));
     main.cards.push(Card::set_global_var("g_done", Card::scalar_int(1)));
     let mut m = Module::default();
-    m.functions.push(("main".into(), main));
+    if case.depth == 0 {
+        m.functions.push(("main".into(), main));
+    } else {
+        // the same cards as the body of work(wa, wb); main pads its frame and calls down to it
+        let mut work = Function::default().with_arg("wa").with_arg("wb");
+        work.cards = main.cards;
+        work.cards.push(Card::return_card(Card::read_var("wa")));
+        let mut real_main = Function::default();
+        for i in 0..(2 + case.depth as usize) {
+            real_main.cards.push(Card::set_var(format!("pad{i}"), Card::scalar_int(100 + i as i64)));
+        }
+        let inner_call = |x: Card| Card::call_function("work", vec![Card::string_card("second argument"), x]);
+        if case.depth == 1 {
+            real_main.cards.push(Card::set_global_var("g_ret", inner_call(Card::scalar_int(1))));
+        } else {
+            real_main.cards.push(Card::set_global_var("g_ret", Card::call_function(format!("lvl{}", case.depth - 2), vec![Card::scalar_int(1)])));
+        }
+        m.functions.push(("main".into(), real_main));
+        for d in 0..(case.depth as usize).saturating_sub(1) {
+            let mut f = Function::default().with_arg("x");
+            f.cards.push(Card::set_var("local", c(CardBody::Add(bin(Card::read_var("x"), Card::scalar_int(1))))));
+            f.cards.push(Card::set_var("s", Card::string_card("a local string of an intermediate frame")));
+            if d == 0 {
+                f.cards.push(Card::return_card(inner_call(Card::read_var("local"))));
+            } else {
+                f.cards.push(Card::return_card(Card::call_function(format!("lvl{}", d - 1), vec![Card::read_var("local")])));
+            }
+            m.functions.push((format!("lvl{d}"), f));
+        }
+        m.functions.push(("work".into(), work));
+    }
     if case.decoys {
         for name in ["row_to_value", "sorted_by_key", "min_by_key", "filter"] {
             m.functions.push((
